@@ -53,6 +53,8 @@ def _special_source(st, flav):
             self.st.closed += 1
             raise CloseError("underlying aclose failed")
 
+    # an aclose that failed or was cancelled half way did not finish the iterator: it can still be advanced
+    st.honour_close = False
     return SlowClose(st) if flav == "slowclose" else FailClose(st)
 
 
